@@ -69,7 +69,7 @@ func init() {
 			c.Stats["lock_ops"] = res.LockOps
 			shardField := R.ShardT.Obj().Name() + "." + R.ShardMap
 			n := lockObligations(c, res, "C02.R1", func(k string) bool { return strings.Contains(k, "/"+shardField+"/") })
-			c.Floor("C02.R1", "registry accesses under lock analysis", n, 20)
+			c.Floor("C02.R1", "registry accesses under lock analysis", n, 12)
 			for _, f := range res.Misc {
 				c.Violate("C02.R1", "locking/"+f.Construct, p.Pos(f.Pos), f.Msg, f.Trace)
 			}
